@@ -7,8 +7,11 @@
   every theorem below holds for all of them.  Histories are arbitrary lists of operations
   (`NewEpoch` / `Claim` by anybody / `UpdateConfig{grace_period}` / token gifts), failed operations leave
   the state unchanged; bonding and unbonding act on the lair only and do not touch the ledger.
+  `joint_histories` restates the history invariants over the joint machine of the `feeflow` engine, whose
+  alphabet contains every entry point the engine sends (also direct `CollectFees` / `AggregateFees`).
 -/
 import WW.Proofs.Distributor
+import WW.Proofs.Collector
 namespace WW.C09
 open WW WW.Distributor
 
@@ -71,6 +74,23 @@ theorem expired_stay_empty (cfg : Cfg) (g : Nat) (hg : 1 ≤ g) (ops : List Op) 
 theorem holds_available (cfg : Cfg) (g : Nat) (hg : 1 ≤ g) (ops : List Op) :
     sumAvail (reach cfg (St.init g) ops).epochs ≤ (reach cfg (St.init g) ops).bal :=
   (reach_inv cfg ops _ (inv_init g hg)).holds
+
+/-- **all entry points** — the three history invariants above, over ALL histories of the JOINT machine
+    (`WW.Model.Feeflow`): besides the distributor's own operations these contain everything the other
+    contracts of the fee pipeline accept in mid-history — `CollectFees` / `AggregateFees` sent to the
+    collector directly by anybody, `ForwardFees` attempts, collector configuration, trades, flash loans,
+    route and pair administration, bonding.  Each of them either is a distributor operation or leaves the
+    ledger untouched (`Feeflow.step_projects`). -/
+theorem joint_histories (cfg : Feeflow.Cfg) (s : Feeflow.St) (hI : Inv s.d) (ops : List Feeflow.Op) :
+    let s' := Feeflow.reach cfg s ops
+    (∀ e ∈ s'.d.epochs, e.avail.isSome = true → amt e.claimed + amt e.avail = amt e.total) ∧
+    (∀ e ∈ s'.d.epochs.drop s'.d.grace, e.avail = none) ∧
+    sumAvail s'.d.epochs ≤ s'.d.bal := by
+  obtain ⟨dops, hd⟩ := Feeflow.reach_projects cfg ops s
+  simp only
+  rw [hd]
+  have hI' := reach_inv cfg.d dops s.d hI
+  exact ⟨fun e he => hI'.ledger e he, hI'.outside, hI'.holds⟩
 
 /-- **payout_eq_ledger_delta** — a successful claim pays exactly what the ledgers lose: the sum of
     `available` falls by the payout, the sum of `claimed` rises by it, the contract balance falls by it,
